@@ -21,6 +21,10 @@ def run_driver(chk, test, result_file, env, timeout=1500, race=True):
         # the test binary failed although a (partial) result was written: a data race report or a crash
         out = t["out"]
         if "WARNING: DATA RACE" in out:
+            v = vlib.classify_race(out)       # both conflicting accesses are the client's own code (whoever called it)
+            if v:
+                res["violations"] = (res.get("violations") or []) + [v]
+                return wd, res, t
             i = out.find("WARNING: DATA RACE")
             block = out[i:i + 3000]
             in_repo = [l for l in block.splitlines() if (vlib.REPO + "/") in l and "zz_verif" not in l]
